@@ -473,7 +473,8 @@ def deadline_probe_cases(phases, ackdls=(0, 10, 11, 15), mods=(None,), prefix="d
                     ops.append("ADV %d" % MS)
                     now += 1
                     ops += ["STATS " + Sn, "PULL %s 5 1" % Sn]
-                ops += ["ACK %s 2 ^0 ^1" % Sn, "STATS " + Sn]
+                # acknowledgements of the two first deliveries, well after their leases have run out: inert
+                ops += ["ADV %d" % (300 * MS), "ACK %s 2 ^0 ^1" % Sn, "STATS " + Sn]
                 if pub_probe:
                     # a Publish (and a GetSubscription) reach the subscription just before each probe
                     out = []
